@@ -449,13 +449,13 @@ func misc() {
 // polls without a change are reported.
 func pollers() {
 	workers := 1 + int(N)%3
-	stage := make([]I, workers)
+	stage := make([]int32, workers)
 	done := make(chan I, workers)
 	for w := 0; w < workers; w++ {
 		w := w
 		go func() {
 			for k := 0; k <= w+int(M)%4; k++ {
-				stage[w]++
+				atomic.AddInt32(&stage[w], 1)
 				runtime.Gosched()
 			}
 			done <- I(w)
@@ -465,46 +465,43 @@ func pollers() {
 	idle := make(chan I)
 	go func() { <-idle }()
 	go func() {}()
-	seen, polls, res := 0, 0, ""
+	seen, polls := 0, 0
 	for seen < workers {
 		select {
-		case w := <-done:
+		case <-done:
 			seen++
-			res += itoa(int(w)) + ":" + itoa(int(stage[w])) + ";"
 		default:
 			polls++
 			if polls > 1000000 {
-				res += "gave-up-after-a-million-polls"
 				seen = workers
 			}
 			runtime.Gosched()
 		}
 	}
-	// order of completion is not fixed: report the multiset
+	// order of completion is not fixed: report the sum
 	sum := 0
 	for w := 0; w < workers; w++ {
-		sum += int(stage[w])
+		sum += int(atomic.LoadInt32(&stage[w]))
 	}
 	gave := "ok"
 	if polls > 1000000 {
 		gave = "gave-up"
 	}
 	emit("pollers", itoa(workers)+" "+itoa(sum)+" "+gave)
-	_ = res
 	close(idle) // nothing is left behind for the later scenarios
 	// polling a flag written by a goroutine that itself yields
-	flag := I(0)
+	var flag int32
 	go func() {
 		runtime.Gosched()
 		runtime.Gosched()
-		flag = 1
+		atomic.StoreInt32(&flag, 1)
 	}()
 	spins := 0
-	for flag == 0 && spins <= 1000000 {
+	for atomic.LoadInt32(&flag) == 0 && spins <= 1000000 {
 		spins++
 		runtime.Gosched()
 	}
-	emit("poll-flag", itoa(int(flag)))
+	emit("poll-flag", itoa(int(atomic.LoadInt32(&flag))))
 }
 
 func main() {
